@@ -1145,3 +1145,134 @@ def rt_dflt_callee(req):
 
 
 RT['dflt_callee'] = rt_dflt_callee
+
+
+_MODPROV_SRC = """
+from sigtools import modifiers
+def inner(x, y=0, *, z=0):
+    return ('inner', x, y, z)
+RAW = {}
+OBJ = {}
+def reg(name, raw, obj):
+    RAW[name] = raw
+    OBJ[name] = obj
+def mk():
+    def f(a, b, c=1, d=2):
+        return (a, b, c, d)
+    return f
+def mkw():
+    def w(a, c=1, *args, **kwargs):
+        return inner(*args, **kwargs)
+    return w
+K, P, A, N = modifiers.kwoargs, modifiers.posoargs, modifiers.autokwoargs, modifiers.annotate
+STACKS = {
+    'kwo': lambda f: K('c')(f),
+    'poso': lambda f: P('a')(f),
+    'kwo_over_poso': lambda f: K('c')(P('a')(f)),
+    'poso_over_kwo': lambda f: P('a')(K('c')(f)),
+    'kwo_twice': lambda f: K('d')(K('c')(f)),
+    'auto_over_poso': lambda f: A(P('a')(f)),
+    'end_over_start': lambda f: P(end='a')(K(start='c')(f)),
+    'annotate_over_kwo': lambda f: N(a=int)(K('c')(f)),
+    'kwo_over_annotate': lambda f: K('c')(N(a=int)(f)),
+    'annotate_over_stack': lambda f: N(a=int)(K('c')(P('a')(f))),
+}
+for name, st in STACKS.items():
+    raw = mk()
+    reg('fn:' + name, raw, st(raw))
+    raw = mkw()
+    reg('fwd:' + name, raw, (K('c')(P('a')(raw)) if name == 'kwo_over_poso' else P('a')(K('c')(raw)) if name == 'poso_over_kwo' else
+                             K('c')(raw) if name == 'kwo' else P('a')(raw) if name == 'poso' else A(P('a')(raw)) if name == 'auto_over_poso' else None))
+class C(object):
+    def m(self, a, b, c=1, d=2):
+        return (a, b, c, d)
+    raw_m = m
+    m = K('c')(P('self', 'a')(m))
+    def m1(self, a, b, c=1, d=2):
+        return (a, b, c, d)
+    raw_m1 = m1
+    m1 = K('c')(m1)
+    def m2(self, a, b, c=1, d=2):
+        return (a, b, c, d)
+    raw_m2 = m2
+    m2 = K('d')(K('c')(m2))
+    def m3(self, a, b, c=1, d=2):
+        return (a, b, c, d)
+    raw_m3 = m3
+    m3 = N(a=int)(m3)
+    def m4(self, a, b, c=1, d=2):
+        return (a, b, c, d)
+    raw_m4 = m4
+    m4 = N(a=int)(K('c')(m4))
+    def m5(self, a, b, c=1, d=2):
+        return (a, b, c, d)
+    raw_m5 = m5
+    m5 = K('c')(N(a=int)(m5))
+inst = C()
+class Init(object):
+    @N(x=int)
+    def __init__(self, x, y=0):
+        pass
+"""
+
+
+def rt_modprov(req):
+    """C08, last clause: the wrapper objects modifiers create replace the function they wrap in BOTH maps, for one modifier and
+    for stacks of them (in every order), on functions, forwarding functions, and methods (through the class and bound)"""
+    import types
+    mod, fname = progs.load_module(_MODPROV_SRC)
+    problems = []
+
+    def check(label, obj, raws, inner_expected, relaxed=False):
+        with warnings.catch_warnings():
+            warnings.simplefilter('ignore')
+            sig = sigtools.signature(obj)
+        src = dict(sig.sources)
+        depths = src.pop('+depths', None)
+        names = list(sig.parameters)
+        if depths is None or sorted(src) != sorted(names):
+            problems.append('modifier-provenance-keys: %s: sources keys %s, parameters %s' % (label, sorted(src), names))
+            return
+        zero = [c for c, d in depths.items() if d == 0]
+        if relaxed:
+            # a function whose __signature__ was set by annotate: the function stands for itself, also when bound
+            if len(zero) != 1:
+                problems.append('modifier-provenance-depth0: %s = %s: +depths = %r' % (label, sig, depths))
+        elif len(zero) != 1 or zero[0] is not obj:
+            problems.append('modifier-provenance-depth0: %s = %s: the callables at depth 0 are %r, expected exactly the object retrieved '
+                            '(+depths = %r)' % (label, sig, zero, depths))
+        for n, lst in src.items():
+            if not lst or len(set(map(id, lst))) != len(lst) or any(all(c is not d for d in depths) for c in lst):
+                problems.append('modifier-provenance-list: %s: sources[%s] = %r, +depths = %r' % (label, n, lst, depths))
+                break
+        for raw in raws:
+            func = getattr(raw, '__func__', raw)
+            for c in list(depths) + [c for lst in src.values() for c in lst]:
+                if c is raw or c is func or (isinstance(c, types.MethodType) and c.__func__ is func):
+                    problems.append('modifier-provenance-raw-function: %s = %s: the undecorated function appears in the maps although the '
+                                    'wrapper object stands for it (sources %r, +depths %r)' % (label, sig, src, depths))
+                    return
+        if inner_expected:
+            for n in ('x', 'y', 'z'):
+                if n in src and not (len(src[n]) == 1 and src[n][0] is mod.inner and depths.get(mod.inner) == 1):
+                    problems.append('modifier-provenance-inner: %s = %s: sources[%s] = %r, +depths = %r; expected [inner] at depth 1' % (
+                        label, sig, n, src[n], depths))
+                    break
+    try:
+        for name, obj in mod.OBJ.items():
+            if obj is None:
+                continue
+            check(name, obj, [mod.RAW[name]], name.startswith('fwd:'))
+        for attr in ('m', 'm1', 'm2', 'm3', 'm4', 'm5'):
+            raw = mod.C.__dict__['raw_' + attr]
+            plain_annotate = attr == 'm3'        # annotate alone returns the function itself: there is no wrapper object
+            check('C.' + attr, mod.C.__dict__[attr], [] if plain_annotate else [raw], False, relaxed=plain_annotate)
+            bound = getattr(mod.inst, attr)
+            check('C().' + attr, bound, [] if plain_annotate else [raw], False, relaxed=plain_annotate)
+        check('Init', mod.Init, [], False, relaxed=True)
+    finally:
+        progs.unload(fname)
+    return ('ok', tuple(problems[:3]), 'probed')
+
+
+RT['modprov'] = rt_modprov
